@@ -35,7 +35,8 @@ def xyzToFaceSiTi (p : V3) : XFST :=
   let ti := stToSiTi (uvToST fuv.2.2)
   let level := siTiLevel si
   if level < 0 || level != siTiLevel ti then ⟨p, face, si, ti, -1⟩
-  else if V3.feq p (faceSiTiToXYZ face si ti).normalize then ⟨p, face, si, ti, level⟩
+  -- bit-pattern comparison of X, Y, Z (math.Float64bits), not Go `==`: −0 ≠ +0 here
+  else if p = (faceSiTiToXYZ face si ti).normalize then ⟨p, face, si, ti, level⟩
   else ⟨p, face, si, ti, -1⟩
 
 /-- `Loop.xyzFaceSiTiVertices` -/
